@@ -27,6 +27,7 @@ F_MATCHEQ = "C20-matchphrase-key-as-equality"
 F_LIKE = "C20-like-on-key-panics"
 F_NULL = "C20-null-key-sort-order"
 F_VERT = "C20-vertical-filter-uncovered-column"
+F_NA = "C20-bloom-nonascii-token-boundary"
 STROPS = ("match", "ipinrange", "like", "matchop")
 OPS = {"=": "Ceq", "!=": "Cne", "<": "Clt", "<=": "Cle", ">": "Cgt", ">=": "Cge"}
 
@@ -167,8 +168,9 @@ def tree_fold(t, f):
 
 
 def bloom_seg_tree(t, seg, corrected=False, vmode="repaired"):
-    """per-segment expression with the measured single-predicate hits. corrected: a gram / token-less phrase (finding
-    C20-bloom-gram-phrase) counts as hit where a row of the segment matches that predicate."""
+    """per-segment expression with the measured single-predicate hits. corrected (True / "gram+nonascii"): a gram /
+    token-less phrase (finding C20-bloom-gram-phrase) counts as hit where a row of the segment matches that predicate; with
+    "gram+nonascii" so does a phrase that matches a value holding non-ASCII bytes."""
     f0 = t["schema"][0]
 
     def leaf(i, a):
@@ -179,6 +181,10 @@ def bloom_seg_tree(t, seg, corrected=False, vmode="repaired"):
         if ob.get("hits"):
             h = ob["hits"][seg] != 0
             if corrected and (ob.get("gram") or ob.get("notoken")) and ob["amatch"][seg]:
+                h = True
+            if corrected == "gram+nonascii" and ob["amatch"][seg] and (ob.get("nonascii") or [False] * (seg + 1))[seg]:
+                # finding C20-bloom-nonascii-token-boundary: the phrase matches a value that holds non-ASCII bytes; the writer's
+                # byte-level tokens of such a value need not be the tokens the row filter / the reader see
                 h = True
         if vmode == "current" and t["in"].get("vertical") and im and not fc:
             # today's VerticalFilterReader.hitExpr: a MATCHPHRASE on a column outside splitMap has no hashes -> "absent"
@@ -197,7 +203,7 @@ def bloom_predict(tree):
 
 def bloom_stream(ck, cases):
     """direct oracle + model correspondence for the bloom cases; returns (verdicts, broken list)"""
-    verdicts = {"known_gram": 0, "known_vert": 0, "violation": 0}
+    verdicts = {"known_gram": 0, "known_vert": 0, "known_nonascii": 0, "violation": 0}
     broken = []
     with_reader = [t for t in cases if t["schema"] and not t["err"] and all(k in (0, 1) for k in t["kept"])]
     vert = [t for t in with_reader if t["in"].get("vertical")]
@@ -251,6 +257,16 @@ def bloom_stream(ck, cases):
                     ck.known_finding(F_VERT, "a segment with a matching row is pruned by the detached (vertical) filter reader: a MATCHPHRASE on a column the filter does not cover evaluates to 'absent'")
                     verdicts["known_vert"] += 1
                     continue
+            if not explained and t["schema"] and not t["err"]:
+                f0 = t["schema"][0]
+                bad = [sgi for sgi in range(t["segcnt"]) if t["match"][sgi] and t["kept"][sgi] == 0]
+                na_involved = any(ob["col"] == f0 and ob["op"] == "match" and any((ob.get("nonascii") or [])[sgi:sgi + 1] == [True] and ob["amatch"][sgi] for sgi in bad)
+                                  for ob in t["atoms"])
+                if na_involved and all(bloom_predict(bloom_seg_tree(t, sgi, corrected="gram+nonascii")) for sgi in range(t["segcnt"]) if t["match"][sgi]):
+                    if ck.match_finding(F_NA):
+                        ck.known_finding(F_NA, "a segment with a matching row is pruned: the phrase matches a value with non-ASCII text, which the writer tokenizes byte-wise (a multi-byte character glues its neighbours into one token) while the row filter and the reader take every non-ASCII byte for a token boundary")
+                        verdicts["known_nonascii"] += 1
+                        continue
             if explained and ck.match_finding(F_GRAM):
                 ck.known_finding(F_GRAM, "a segment with a matching row is pruned: the reader looks up a multi-token gram hash (or no token) that the writer never inserts")
                 verdicts["known_gram"] += 1
@@ -621,7 +637,7 @@ def main(ck):
             ck.broken.append("harness c20 failed rc=%d cases=%d/%d: %s" % (rc, len(cs), n, out[-400:]))
             return
         cases += cs
-    bverd, bbroken = bloom_stream(ck, bcases) if bcases else ({"known_gram": 0, "known_vert": 0, "violation": 0}, [])
+    bverd, bbroken = bloom_stream(ck, bcases) if bcases else ({"known_gram": 0, "known_vert": 0, "known_nonascii": 0, "violation": 0}, [])
     for msg, t in bbroken[:3]:
         ck.broken.append(msg)
     if bbroken and not ck.violations:
@@ -631,6 +647,7 @@ def main(ck):
     ck.cov["bloom"] = {"evaluations": len(bcases), "with_reader": sum(1 for t in bcases if t["schema"]),
                        "distinct_nontrivial": len(set(json.dumps(t["in"], sort_keys=True) for t in bcases if t["nontrivial"])),
                        "with_nulls": sum(1 for t in bcases if any(v is None for v in t["in"]["content"])),
+                       "with_non_ascii_text": sum(1 for t in bcases if t["in"].get("tag") == "nonascii"),
                        "gram_or_tokenless_phrases": sum(1 for t in bcases if any(a.get("gram") or a.get("notoken") for a in t["atoms"])),
                        "verdicts": bverd,
                        "rule": "string column(s) with nulls / empty strings / repeated tokens cut into segments (boundaries inside null runs), "
@@ -657,8 +674,9 @@ def main(ck):
         r["rb"], r["norm"], r["null"], r["null_distinguishing"], r["mismatch_counts"], r["verdicts"]))
     ck.log(ck.notes[-1])
     # stale findings (open entries that no longer reproduce) are reported, not failed
-    if ck.match_finding(F_GRAM) and bcases and bverd["known_gram"] == 0:
-        ck.notes.append("open finding %s did not reproduce in this run (stale?)" % F_GRAM)
+    for fid, key in ((F_GRAM, "known_gram"), (F_NA, "known_nonascii")):
+        if ck.match_finding(fid) and bcases and bverd[key] == 0:
+            ck.notes.append("open finding %s did not reproduce in this run (stale?)" % fid)
     for fid, key in ((F_RB, "known_rb"), (F_MUT, "known_mut"), (F_NULL, "known_null")):
         if ck.match_finding(fid) and r["verdicts"][key] == 0:
             ck.notes.append("open finding %s did not reproduce in this run (stale?)" % fid)
